@@ -78,6 +78,13 @@ def compare(root, pp, cfg, api, out, armed, stream='walk'):
                     res = [os.fsdecode(x) for x in G.glob(os.fsencode(text), flags=fl, dir_fd=fd_)]
                 finally:
                     os.close(fd_)
+            elif api == 5:
+                # the root as a descriptor of the parent directory plus a relative root_dir
+                fd_ = os.open(os.path.dirname(root), os.O_RDONLY)
+                try:
+                    res = G.glob(text, flags=fl, dir_fd=fd_, root_dir=os.path.basename(root))
+                finally:
+                    os.close(fd_)
             else:
                 # ... nor on a pattern before it that lists the same directories in another way (`*`, then the pattern): the
                 # result is judged against the union of the two reference results
@@ -131,7 +138,7 @@ def run_walk(desc):
 
     @seed(desc['seed'])
     @util.hyp_settings(desc['n'], shrink=False)
-    @given(FC.st_case(), FC.st_cfg(CFG_KEYS), st.integers(0, 4))
+    @given(FC.st_case(), FC.st_cfg(CFG_KEYS), st.integers(0, 5))
     def test(sp, cfg, api):
         spec, pp = sp
         follow = FC.follows_links(cfg)
@@ -179,7 +186,7 @@ def run_literal(desc):
                             continue
                         seen.add(key)
                         pp = A.PathPat(False, segs, trail, 1)
-                        r = compare(root, pp, cfg, (0, 3, 2, 0, 4)[len(seen) % 5], out, armed, stream='literal')
+                        r = compare(root, pp, cfg, (0, 3, 2, 0, 4, 5)[len(seen) % 6], out, armed, stream='literal')
                         if r is not None and r[0] and len(segs) >= 2:
                             out.nontrivial((desc['tree'], A.render_path(pp), tuple(sorted(cfg))))
         for i, (sz, b, c) in enumerate(out.violations):
